@@ -503,6 +503,18 @@ let run_case (w : string list) : string =
   | ["yaw"; mode; b; qs] -> run_yaw mode (bytes_of_hex b) (if qs = "-" then [] else String.split_on_char ',' qs)
   | ["traj"; mode; b; qs] -> run_traj mode (bytes_of_hex b) (if qs = "-" then [] else String.split_on_char ',' qs)
   | ["rth"; b; pts; times] -> run_rth (bytes_of_hex b) (ints_of_csv pts) (if times = "-" then [] else String.split_on_char ',' times)
+  | ["routes"; k; b] ->
+    let kd = (match k with "traj" -> M.KTraj | "light" -> M.KLight | "yaw" -> M.KYaw | "rth" -> M.KRth | _ -> failwith "kind") in
+    let bytes = bytes_of_hex b in
+    (match M.load kd M.Fd bytes, M.load kd M.Mem bytes with
+     | M.Ok (b1, _), M.Ok (b2, _) ->
+       let np = if kd = M.KLight then
+           (* the battery of the harness seeks to these instants: does the program make progress up to them? *)
+           List.exists (fun ms -> match M.light_seek light_fuel b1 (M.player_fresh b1) (Z.of_int ms) with M.Fuel -> true | _ -> false) [60000; 777]
+         else false in
+       pr "ok:%d:%s%s" (List.length b1) (if b1 = b2 then "same" else "blockdiff") (if np then ":noprogress" else "")
+     | M.Ok _, _ | _, M.Ok _ -> "MISMATCH"
+     | a, b -> pr "fail:%s:%s" (show_res_code (fun _ -> "0") a) (show_res_code (fun _ -> "0") b))
   | ["load"; k; r; b] ->
     let kd = (match k with "traj" -> M.KTraj | "light" -> M.KLight | "yaw" -> M.KYaw | "rth" -> M.KRth | _ -> failwith "kind") in
     show_res_code (fun (body, owned) -> pr "ok %d %s" (if owned then 1 else 0) (hex_of_bytes body)) (M.load kd (route_of r) (bytes_of_hex b))
